@@ -41,14 +41,15 @@ theorem C19_copy_shares (c : Cfg) (o : CopyOpts) (s : St) (src dst : Path) (se :
     or dropped, the cache is untouched. -/
 theorem C19_move_count_preserved (c : Cfg) (o : CopyOpts) (s : St) (src dst : Path) (se : Ent) (r : Rec)
     (hs : s.findEnt src = some se) (hr : s.recs se = some r) (hunch : s.sourceChanged c r = false)
-    (hnew : s.findEnt dst = none) (hfree : s.ws dst = none) :
+    (hnew : s.findEnt dst = none) (hfree : s.ws dst = none)
+    (hnb : s.moveBlocked r src (o.method.getD r.method) o.noRecheck = false) :
     let s' := (s.move c o src dst).1
     s'.next = s.next ∧ s'.cache = s.cache ∧
     s'.recs se = some { r with path := dst, method := o.method.getD r.method } ∧
     (∀ e, e ≠ se → s'.recs e = s.recs e) := by
   have hc := move_cache c o s src dst
   unfold St.move at hc ⊢
-  simp only [hs, hr, hunch, hnew, hfree, Bool.false_eq_true, if_false, Option.isSome_none, Bool.false_and] at hc ⊢
+  simp only [hs, hr, hunch, hnew, hfree, hnb, Bool.false_eq_true, if_false, Option.isSome_none, Bool.false_and] at hc ⊢
   refine ⟨?_, hc, ?_, ?_⟩
   · repeat' split
     all_goals simp [recheckFromCache_next]
